@@ -31,7 +31,7 @@ def supported(f, kind):
 
 class C17(Prop):
     id = 'C17'
-    rule_added = 'Dense online feeds also staggered (variables start at different samples) and with an idle poll.'
+    rule_added = 'Dense online feeds also staggered (variables start at different samples) and with an idle poll. 20% of the dense online cases feed the inputs as (nested) fields of one object-typed variable.'
     rule = ('random formulas over the whole operator alphabet x the 6 monitor configurations {discrete offline, '
             'discrete online, discrete online after pastify, dense offline, dense online, dense online after '
             'pastify} x degenerate but well-formed data shapes (one-sample traces, a declared variable the formula '
